@@ -39,7 +39,7 @@ ASSUMPTIONS = [
   "is not judged - the reader may agree with either reading; likewise whether a `set` child takes part in the implicit duration of its "
   "parent (both readings of SMIL endsync accepted)",
   "not generated / not judged: precedence among several conflicting nested style children of one region or several initial elements for "
-  "one property; `set` as a direct child of a sequential container (`br` there is judged, but only on the 54 enumerated documents of directed_docs(), never drawn at random); the `t` metric without ttp:tickRate (documents "
+  "one property; `set` / `br` as a direct child of a sequential container drawn at random (`br` and `set` there are judged, but only on the 108 enumerated documents of directed_docs(), never drawn at random); the `t` metric without ttp:tickRate (documents "
   "that need it after the removal of a corrupted attribute are skipped; frames without ttp:frameRate use the TTML2 default of 30); both ittp:aspectRatio and "
   "ttp:displayAspectRatio; end < begin where the implicit duration of a container or the begin of a seq sibling would depend on it; "
   "dangling region references; regions without xml:id; duplicate xml:id; tts:ruby by referential styling; set with several style "
@@ -555,9 +555,11 @@ def directed_docs():
           'xmlns:tts="http://www.w3.org/ns/ttml#styling"><head><layout><region xml:id="r1"/></layout></head><body>')
   tail = '</body></tt>'
   a, b, c = '<span dur="1s">A</span>', '<span dur="2s">B</span>', '<span begin="1s" end="3s">C</span>'
+  s0, s1, s2 = '<set tts:color="red"/>', '<set tts:color="blue" dur="2s"/>', '<set tts:opacity="0.5" begin="1s" end="4s"/>'
   for pattrs in ('', ' begin="10s"', ' begin="2s" dur="20s"'):
     for kids in (a + '<br/>' + b, '<br/>' + a + b, a + b + '<br/>', a + '<br/><br/>' + c, '<br/>' + c + '<br/>' + a,
-                 a + '<br tts:color="red"/>' + c + b):
+                 a + '<br tts:color="red"/>' + c + b,
+                 s0 + b, s1 + a + b, s0 + s1 + c, s2 + a, s1 + s2 + b + a, s0 + '<br/>' + s1 + c):
       yield f'{head}<div><p region="r1" timeContainer="seq"{pattrs}>{kids}</p></div>{tail}'
       yield (f'{head}<div><p region="r1"{pattrs}><span timeContainer="seq">{kids}</span>'
              f'<span begin="1s">Z</span></p></div>{tail}')
